@@ -998,7 +998,7 @@ def layout_known_class(k, case, exp_line, obs_line):
 
 _mk("layout", runner_projection(flow_view), runner_features(1, 3), layout_oracle)
 PROPERTIES["C08"] = {
-    "families": [("layout", 90, 2500), ("indent", 600, 20000), ("exprparse", 1500, 50000)],
+    "families": [("layout", 90, 2500), ("indent", 600, 20000), ("exprparse", 1500, 50000), ("stmtparse", 400, 20000)],
     "rule": "layout: every generated program is printed under its own random layout and under 10 fixed renderings "
             "(indent unit 1 / 8 blanks / tabs, CRLF, a blank, whitespace-only or comment line at any indentation before "
             "EVERY line, maximal parentheses with word operators, random extra parentheses with symbol operators and "
@@ -1073,17 +1073,78 @@ def load_shrink(case):
 FAMILIES["load"] = {"oracle": load_oracle, "features": load_features, "shrink": load_shrink,
                     "project": lambda line: "-", "always_oracle": True}
 PROPERTIES["C05"] = {
-    "families": [("load", 500, 20000), ("indent", 400, 10000)],
+    "families": [("load", 500, 20000), ("indent", 400, 10000), ("stmtparse", 600, 30000)],
     "rule": "load: (a) printer output of generated programs split over 1-3 readers with 0-3 mutations (truncate, delete/"
             "duplicate/swap a line, unbalance >>, break endif, mix tabs and blanks, overwrite a byte, insert keyword soup, "
             "cut one script in two at an arbitrary offset), (b) keyword soups, random bytes incl. invalid UTF-8, empty/"
             "blank/comment-only input; seeds over [0-9a-z]{1,14}, the empty seed, and seeds with other characters. The "
             "outcome (runner / error / panic / hang, and whether a returned runner survives 4 Next calls) is judged "
             "against an independent run of the generated lexer and parser with error listeners of its own (hook "
-            "VerifSyntaxCheck). Non-trivial: the input contains a node body marker.",
+            "VerifSyntaxCheck). Non-trivial: the input contains a node body marker. stmtparse: one reader's text - half of "
+            "them printed programs as they are (the generator knows the dialogue: independent expectation), the rest with "
+            "token-level mutations, keyword soups, scripts cut at an arbitrary offset - together with the tokens the "
+            "implementation's lexer hands to the parser for it; the statement parser model (Syntax/StmtParser.v over the token "
+            "table extracted from the Go source) decides accepted / refused and builds the dialogue from the tokens, "
+            "tree.FromReader does the same from the text; both must agree, and with the independent ANTLR run.",
     "assumptions": ["'syntactically valid' = the generated ANTLR lexer/parser report no error, consume the whole input and find >= 1 node per reader"],
 }
 
+
+# ------------------------------------------------------------------ stmtparse (C05, C08, C01, C17: generated parser + listener)
+def stmtparse_projection(line):
+    res = sexp.parse(line)
+    if isinstance(res, list) and res and isinstance(res[-1], list) and tag(res[-1]) == "syntax":
+        res = res[:-1]
+    return sexp.dump(res)
+
+
+def stmtparse_oracle(case, obs, exp):
+    if tag(obs) not in ("ok", "err"):
+        return "violation", "parsing panicked or died: %s" % sexp.dump(obs)[:200]
+    want = next((x[1] for x in case[3:] if tag(x) == "expect"), None)
+    if want is not None and "rawcmd" not in sexp.dump(want):
+        # the text is the printed form of this dialogue (generator's own printer, random layout)
+        if tag(obs) != "ok":
+            return "violation", "a printed, syntactically valid program was refused"
+        if sexp.dump(obs[1]) != sexp.dump(want):
+            return "violation", "the printed program %s was read as %s" % (sexp.dump(want)[:300], sexp.dump(obs[1])[:300])
+        return "ok", "the printed program was read back"
+    syn = obs[-1] if isinstance(obs[-1], list) and tag(obs[-1]) == "syntax" else None
+    if syn is not None:
+        valid = syn[1] == 0 and syn[2] == 0 and syn[3] >= 1 and syn[4] == 0
+        if tag(obs) == "ok" and not valid:
+            return "violation", "input with syntax errors (independent ANTLR run: %s) was loaded" % sexp.dump(syn)
+        if tag(obs) == "err" and valid and tag(exp) == "ok":
+            return "violation", "a syntactically valid script (independent ANTLR run and parser model agree) was refused"
+    return "unknown", "the implementation's parser + listener and the statement parser model disagree on this token stream"
+
+
+def stmtparse_features(case):
+    text = str(case[1])
+    toks = case[2][2] if tag(case[2]) == "toks" else []
+    kinds = {t[0] for t in toks}
+    labels = ["tokens<=30" if len(toks) <= 30 else "tokens<=150" if len(toks) <= 150 else "tokens>150",
+              "printed-with-expectation" if any(tag(x) == "expect" for x in case[3:]) else "mutated-or-plain",
+              "lexer-panic" if tag(case[2]) == "lexer-panic" else ("lexer-errors" if case[2][1] else "lexer-clean"),
+              "options" if 14 in kinds else "no-options", "indent" if 1 in kinds else "flat",
+              "if" if 64 in kinds else "no-if", "command-text" if 80 in kinds else "no-command-text"]
+    return text, len(toks) >= 20, labels
+
+
+def stmtparse_shrink(case):
+    text = str(case[1])
+    lines = text.split("\n")
+    out = []
+    for j in range(len(lines)):
+        t = "\n".join(lines[:j] + lines[j + 1:])
+        out.append([case[0], sexp.Sym(t), ["lexer-panic"]])        # tokens are taken again by the harness (norm)
+        if len(out) > 80:
+            break
+    return out
+
+
+FAMILIES["stmtparse"] = {"oracle": stmtparse_oracle, "features": stmtparse_features, "shrink": stmtparse_shrink,
+                         "project": stmtparse_projection, "always_oracle": True, "needs_norm": True}
 
 # ------------------------------------------------------------------ concurrent (C18)
 import os as _os
